@@ -79,6 +79,22 @@ def run(ctx):
         for m in [1, 2, 255, 1 << 63, (1 << 64) - 1, rng.randrange(1, 1 << 64), 1 << 64, ((1 << 64) - 1) << 64,
                   rng.randrange(1, 1 << 64) << 128, rng.randrange(1, 1 << 60) << 192]:
             add("u:%d:%x" % (i, m * rinv % R), "montgomery-sparse")
+    # (2c) limb boundaries: all-ones limbs below zero limbs, single high bytes, one-word values with top bits set
+    for i in [0, 2, 5, 9, 255]:
+        for v in [(1 << 64) - 1, (1 << 128) - 1, (1 << 192) - 1, 0xff00000000000000, 0x8100000000000000, 0x8000000000000000,
+                  ((1 << 64) - 1) << 64, ((1 << 64) - 1) << 128, (0xff << 56) << 64, (1 << 64) - 1 + (1 << 129), 0xffff << 48, 0x8000 << 48]:
+            add("u:%d:%x" % (i, v % R), "limb-boundary")
+    # (2d) short vectors (special-cased lengths) with every half-window / carry pattern in every window of every position
+    for n in (1, 2, 3, 4, 5, 6, 8):
+        for pos in range(n):
+            w = win(pos)
+            half = 1 << (w - 1)
+            for k in range(0, 256 // w, 1 if not ctx.quick() else 3):
+                for dgt in (half, half - 1, half + 1, (1 << w) - 1):
+                    vals = [rng.choice([0, 1, rng.randrange(R)]) for _ in range(n)]
+                    v = (dgt << (w * k)) | (rng.randrange(1 << (w * k)) if (k and rng.random() < 0.5) else 0)
+                    vals[pos] = v % R
+                    add("x:" + ",".join("%x" % x for x in vals), "short-%d-halfwindow" % n)
     # (3) lengths and density
     for n in [0, 1, 2, 4, 5, 6, 7, 255, 256]:
         if n == 0:
@@ -92,6 +108,8 @@ def run(ctx):
         add("s:" + ",".join("%d=%x" % (rng.randrange(256), rng.randrange(R)) for _ in range(m)), "sparse-random")
     add("c:%x" % (R - 1), "all-max")
     add("z", "zero")
+    gl = ["grp %d %d" % (a, b) for (a, b) in [(8, 16), (3, 256), (256, 256), (1, 5), (300, 40)]]
+    diff(ctx, gl, "CRS points after the caller reused an earlier result", ["crs-generation"] * len(gl), shards=1, impl_shards=1)
     impl0, _ = diff(ctx, lines, "Commit vs sum v_i G_i", cls, nt)
     # Commit is a function of its input: the same vectors committed by several goroutines at once
     # (one shared slice per vector) give the sequential results
